@@ -337,20 +337,37 @@ def rand_file(rng, version, size="small"):
     step7 = rng.choice([1, 5, 10, 15, 30]) * 10 ** 7 if not sub else rng.choice([10 ** 6, 5 * 10 ** 6, 2 * 10 ** 6, 2500000, 1234567])
     nep = rng.choice([1, 2, 3, 4, 6]) if not big else rng.choice([2, 3, 5, 8])
     s7 = t0[5] * 10 ** 7 + (rng.choice([0, 0, 10 ** 6, 5 * 10 ** 6, 1234567]) if sub else 0)
-    first = [t0[0], t0[1], t0[2], t0[3], t0[4], s7]
+    sampling = None
+    if rng.random() < 0.45:
+        sampling = rng.choice([[1, 1], [2, 1], [5, 1], [10, 1], [30, 1], [60, 1], [1, 2], [1, 4], [3, 2]])
+    tots = [s7 + k * step7 for k in range(nep)]            # 1e-7 s after t0's hour:minute:00
+    near_grid = sampling is not None and rng.random() < 0.65
+    if near_grid:
+        # epochs ON the sampling grid and OFF it by 1e-7 .. 5e-4 s (the format carries 7 decimals; only exact decimal
+        # arithmetic on the printed seconds decides which epochs survive the decimation)
+        nep = max(nep, rng.choice([3, 4, 6]))
+        rate7 = sampling[0] * 10 ** 7 // sampling[1]
+        base7 = (t0[3] * 3600 + t0[4] * 60) * 10 ** 7
+        g0 = -(-(base7 + t0[5] * 10 ** 7) // rate7) * rate7
+        mult = rng.choice([1, 1, 2])
+        offs = [0] + [rng.choice([0, 1, -1, 2, -2, 10, -10, 100, -100, 1000, -1000, 2000, 3000, -3000, 4999, -4999, 5000, -5000,
+                                  rng.randrange(1, 5001), -rng.randrange(1, 5001)]) for _ in range(nep - 1)]
+        tots = [g0 + k * mult * rate7 + offs[k] - base7 for k in range(nep)]
+        s7 = tots[0]
+    def hms(tot):
+        mm_, ss7_ = divmod(tot, 60 * 10 ** 7)
+        mi_ = t0[4] + mm_
+        return t0[3] + mi_ // 60, mi_ % 60, ss7_
+    fh, fm, fs7 = hms(s7)
+    first = [t0[0], t0[1], t0[2], fh, fm, fs7]
     hdr = rand_header(rng, version, first)
     gps_blank = version == 2 and systems == ["G"] and rng.random() < 0.5
     hdr["sat_sys_text"] = (("M (MIXED)" if rng.random() < 0.5 else "M") if nsys > 1 else
                            ("" if gps_blank and rng.random() < 0.5 else systems[0] + rng.choice(["", " (GPS)" if systems[0] == "G" else ""])))
     p_absent = rng.choice([0.05, 0.25, 0.5, 0.8])
     epochs = []
-    h, m = t0[3], t0[4]
     for k in range(nep):
-        tot = s7 + k * step7
-        mm, ss7 = divmod(tot, 60 * 10 ** 7)
-        mi = m + mm
-        hh = h + mi // 60
-        mi = mi % 60
+        hh, mi, ss7 = hms(tots[k])
         nsat = (rng.choice([1, 2, 3, 5, 8, 11, 12, 13, 20, 24, 25, 36, 37, 40]) if big else rng.choice([1, 1, 2, 3, 4, 6, 12, 13]))
         sats = []
         pool_ids = [(s_, p_) for s_ in systems for p_ in range(1, 38)]
@@ -375,7 +392,4 @@ def rand_file(rng, version, size="small"):
     style = dict(strip=rng.random() < 0.6, hdr_strip=rng.random() < 0.5, hdr_pad80=rng.random() < 0.3)
     if rng.random() < 0.3:
         style["strip_pattern"] = [rng.random() < 0.5 for _ in range(rng.randrange(2, 7))]
-    sampling = None
-    if rng.random() < 0.45:
-        sampling = rng.choice([[1, 1], [2, 1], [5, 1], [10, 1], [30, 1], [60, 1], [1, 2], [1, 4], [3, 2]])
-    return dict(version=version, hdr=hdr, systypes=systypes, epochs=epochs, style=style, sampling=sampling)
+    return dict(version=version, hdr=hdr, systypes=systypes, epochs=epochs, style=style, sampling=sampling, near_grid=near_grid)
